@@ -2,7 +2,8 @@
 import re
 from .core import common
 from .core.mir import op_local, op_place, strip_generics, callee_name
-from .core.cond import all_tests, call_site_of, classify_edge, const_of
+from .core.slicing import origins
+from .core.cond import all_tests, call_site_of, classify_edge, const_of, borrowed_local
 from .core.symexpr import expr, show, strip_refs, place_expr
 from . import fmtfeat
 
@@ -57,6 +58,8 @@ def check_layout(ctx, facts):
                     strides.add(k)
                 elif k is None and "block_offset" == rec.local_name(st["place"]["l"]):
                     strides.add(show(e[2])[:40])
+    if not strides and unit_iter_loop(facts, rec) is not None:
+        strides = {D}       # the offsets come from an iterator over the multiples of DEFAULT_BLOCK_SIZE
     if rec_limits == {D} and strides == {D}:
         ctx.ok("C06.1", "walrus::Walrus::startup_chore", "recovery: block limit = stride = DEFAULT_BLOCK_SIZE (%d)" % D, rec.relfile, rec.line)
     else:
@@ -92,6 +95,76 @@ def check_layout(ctx, facts):
     ctx.floor("C06.1", "allocator layout sites", n, 2)
 
 
+def unit_iter_loop(facts, b):
+    """The per-file unit loop written over an iterator: `for off in (0..N).map(|u| u * DEFAULT_BLOCK_SIZE)` (or
+    `.step_by(DEFAULT_BLOCK_SIZE)` over `0..MAX_FILE_SIZE`).  Returns (next-call site, loop blocks, Some edge, None edge) or None.
+    Such a loop visits every unit by construction: the offsets are the multiples of the unit size below the file size."""
+    MAXF = facts.const_val("config::MAX_FILE_SIZE")
+    D = facts.const_val("config::DEFAULT_BLOCK_SIZE")
+    for c in b.calls(re.compile(r"Iterator>?::next$")):
+        rl = borrowed_local(b, c.node["args"][0]) if c.node["args"] else None
+        rty = b.local_ty(rl) if rl is not None else ""
+        ok = False
+        src, _, _ = origins(b, c.node["args"][0], follow_all_calls=True) if c.node["args"] else (set(), None, None)
+        consts = {o.what for o in src if o.kind == "const" and isinstance(o.what, int)}
+        if "iter::Map<std::ops::Range<" in rty and (MAXF // D) in consts:
+            # the mapping closure multiplies by the unit size
+            for o in src:
+                pass
+            for site, st in b.assigns():
+                rv = st["rv"]
+                if rv["k"] == "agg" and rv.get("akind") == "closure":
+                    cb = facts.bodies.get(rv.get("name"))
+                    if cb is None:
+                        continue
+                    for s2, st2 in cb.assigns():
+                        r2 = st2["rv"]
+                        if r2["k"] == "bin" and r2["op"] in ("Mul", "MulWithOverflow") and (fmtfeat.const_eval(strip_refs(expr(cb, r2["a"]))) == D or fmtfeat.const_eval(strip_refs(expr(cb, r2["b"]))) == D):
+                            ok = True
+        if "iter::StepBy<std::ops::Range<" in rty and MAXF in consts and D in consts:
+            ok = True
+        if "iter::TakeWhile<std::iter::Map<std::ops::RangeFrom<" in rty:
+            # `(0..).map(|u| u * D).take_while(|o| o + D <= MAX)`: one closure multiplies by the unit size, the other keeps
+            # the offsets whose unit still fits in the file
+            mul = fits = False
+            for site, st in b.assigns():
+                rv = st["rv"]
+                if rv["k"] == "agg" and rv.get("akind") == "closure":
+                    cb = facts.bodies.get(rv.get("name"))
+                    if cb is None:
+                        continue
+                    for s2, st2 in cb.assigns():
+                        r2 = st2["rv"]
+                        if r2["k"] != "bin":
+                            continue
+                        ea, eb = strip_refs(expr(cb, r2["a"])), strip_refs(expr(cb, r2["b"]))
+                        if r2["op"] in ("Mul", "MulWithOverflow") and D in (fmtfeat.const_eval(ea), fmtfeat.const_eval(eb)):
+                            mul = True
+                        if ea[0] == "call" and ea[1].endswith("::add") and len(ea[2]) == 2:
+                            ea = ("Add", strip_refs(ea[2][0]), ea[2][1])        # `&u64 + u64` goes through the trait
+                        if r2["op"] == "Le" and fmtfeat.const_eval(eb) == MAXF and ea[0] == "Add" and fmtfeat.const_eval(ea[2]) == D:
+                            fits = True
+            ok = mul and fits and 0 in consts
+        if not ok:
+            continue
+        loop = b.natural_loop(c.bb)
+        hb = c.bb
+        for _ in range(4):
+            if loop and c.bb in loop:
+                break
+            hb = b.idom[hb]
+            loop = b.natural_loop(hb)
+        if not loop:
+            continue
+        some_e = none_e = None
+        for T in all_tests(b):
+            if T.kind == "discr" and not T.place["p"] and T.place["l"] == c.node["dest"]["l"]:
+                some_e = T.variant_edges.get(1)
+                none_e = T.variant_edges.get(0) or ((T.bb, T.otherwise) if T.otherwise is not None else None)
+        return c, loop, some_e, none_e
+    return None
+
+
 def check_scan(ctx, facts, rid="C06.2"):
     b = facts.body("walrus::Walrus::startup_chore")
     F = "walrus::Walrus::startup_chore"
@@ -104,7 +177,27 @@ def check_scan(ctx, facts, rid="C06.2"):
             if fmtfeat.const_eval(eb) == MAXF and ea[0] == "Add" and fmtfeat.const_eval(ea[2]) == D:
                 header = T
     if header is None:
-        ctx.anchor_missing(rid, "unit loop `block_offset + DEFAULT_BLOCK_SIZE <= MAX_FILE_SIZE` in startup_chore")
+        it = unit_iter_loop(facts, b)
+        if it is None:
+            ctx.anchor_missing(rid, "unit loop `block_offset + DEFAULT_BLOCK_SIZE <= MAX_FILE_SIZE` in startup_chore")
+            return
+        nxt, loop, some_e, none_e = it
+        n_bad = 0
+        for (u, v) in b.loop_exits(loop):
+            if none_e is not None and (u, v) == none_e:
+                continue
+            if b.term(v)["k"] == "unreachable" or b.is_cleanup(v):
+                continue
+            T, which = classify_edge(b, (u, v))
+            if T is not None and T.kind == "discr" and not T.place["p"] and T.place["l"] == nxt.node["dest"]["l"]:
+                continue    # the iterator is exhausted
+            n_bad += 1
+            ctx.violate(rid, F, "scan-stops-at-unparseable-unit:iterator-loop-left-early", b.relfile, b.term(u)["line"],
+                        "the unit loop (an iteration over the unit offsets of the file) is left before the iterator is exhausted: recovery stops scanning this file, although later "
+                        "units may hold live blocks")
+        if n_bad == 0:
+            ctx.ok(rid, F, "the unit loop iterates over every unit offset of the file and is left only when the iterator is exhausted", b.relfile, nxt.line)
+        ctx.floor(rid, "blocks in the unit loop", len(loop), 10)
         return
     hb = header.bb
     loop = b.natural_loop(hb)
@@ -233,6 +326,11 @@ def check_scan_stride(ctx, facts, rid="C06.5"):
                 off = strip_refs(ea[1])[1]
                 hdr = T
     if off is None:
+        it = unit_iter_loop(facts, b)
+        if it is not None:
+            ctx.ok(rid, F, "the unit offsets are produced by an iterator over the multiples of DEFAULT_BLOCK_SIZE below MAX_FILE_SIZE: every unit is visited", b.relfile, it[0].line)
+            ctx.floor(rid, "advances of the unit loop offset", 1, 1)
+            return
         ctx.anchor_missing(rid, "offset local of the unit loop in startup_chore")
         return
     hb, L = b.enclosing_loop(hdr.bb)
